@@ -41,7 +41,8 @@
 
    Outside the modelled subset ([FeUnsupported], counted by the harness, never compared):
    non-ASCII atoms, references / net names containing * or ? (used as wildcard patterns by the
-   get_* lookups), a second view in a cell, float numbers, arrays / bus indices above [max_bits].
+   get_* lookups), a second view in a cell, float numbers (number (e m x)), string property values
+   whose escapes %n% name a character above 127, arrays / bus indices above [max_bits].
 
    Every sibling check is made where the code makes it (add_port / add_child / add_definition /
    add_library after the construct is complete). A pin joined twice raises in Wire.connect_pin.
@@ -231,6 +232,69 @@ Definition is_str_ok (x : sexp) : bool := match x with Str s => str_tok_ok s | _
 Definition chk_comment (args : list sexp) : result unit :=
   if forallb is_str_ok args then Ok tt else Err FeShape.
 
+(* parse_string: the escapes of a string VALUE are decoded by
+     re.sub(r"%[ \t]*((?:[-+]?\d+[ \t]+)*[-+]?\d+)[ \t]*%", <chr of every code>, token)
+   Between two percent signs of a match there is no percent sign, so a match that starts at a percent
+   sign ends at the NEXT one and exists iff the text in between is blank-separated integers (at least
+   one); otherwise that percent sign is an ordinary character and the search goes on behind it.
+   chr raises ValueError for a negative code (the leftmost failing group decides); a code above 127
+   makes the value non-ASCII: outside the modelled subset. *)
+Fixpoint digits_only (s : str) (acc : Z) (seen : bool) : option Z :=
+  match s with
+  | [] => if seen then Some acc else None
+  | c :: s' => if is_digit c then digits_only s' (10 * acc + Z.of_N (c - 48))%Z true else None
+  end.
+Definition code_tok (a : str) : option Z :=
+  match a with
+  | c :: r => if N.eqb c 45 then option_map Z.opp (digits_only r 0%Z false)
+              else if N.eqb c 43 then digits_only r 0%Z false
+              else digits_only a 0%Z false
+  | [] => None
+  end.
+Definition is_blank (c : N) : bool := N.eqb c 32 || N.eqb c 9.
+Fixpoint blank_words (g : str) (cur : str) : list str :=              (* cur: the word being read, reversed *)
+  match g with
+  | [] => match cur with [] => [] | _ => [rev cur] end
+  | c :: g' => if is_blank c then match cur with [] => blank_words g' [] | _ => rev cur :: blank_words g' [] end
+               else blank_words g' (c :: cur)
+  end.
+Fixpoint all_codes (ws : list str) : option (list Z) :=
+  match ws with
+  | [] => Some []
+  | w :: r => match code_tok w, all_codes r with Some z, Some l => Some (z :: l) | _, _ => None end
+  end.
+Definition group_codes (g : str) : option (list Z) :=
+  match blank_words g [] with [] => None | ws => all_codes ws end.
+Fixpoint codes_chars (zs : list Z) : result str :=
+  match zs with
+  | [] => Ok []
+  | z :: r => if (z <? 0)%Z then Err FeShape else if (127 <? z)%Z then Err FeUnsupported
+              else match codes_chars r with Ok l => Ok (Z.to_N z :: l) | Err e => Err e end
+  end.
+(* pend: the characters read since a percent sign that may open a group (reversed) *)
+Fixpoint unesc (s : str) (pend : option str) : result str :=
+  match s with
+  | [] => Ok match pend with Some p => 37 :: rev p | None => [] end
+  | c :: s' =>
+    if N.eqb c 37 then
+      match pend with
+      | None => unesc s' (Some [])
+      | Some p =>
+        match group_codes (rev p) with
+        | Some zs => match codes_chars zs with
+                     | Ok a => match unesc s' None with Ok b => Ok (a ++ b) | Err e => Err e end
+                     | Err e => Err e
+                     end
+        | None => match unesc s' (Some []) with Ok b => Ok (37 :: rev p ++ b) | Err e => Err e end
+        end
+      end
+    else match pend with
+         | None => match unesc s' None with Ok b => Ok (c :: b) | Err e => Err e end
+         | Some p => unesc s' (Some (c :: p))
+         end
+  end.
+Definition unescape_value (s : str) : result str := unesc s None.
+
 Definition parse_typed (x : sexp) : result pval :=
   match x with
   | SList (Atom k :: l) =>
@@ -251,13 +315,15 @@ Definition parse_typed (x : sexp) : result pval :=
     else if kweq k "number" then
       match l with
       | [Atom a] => match int_tok a with Some z => Ok (PVInt z) | None => Err FeShape end
-      | SList (SList _ :: _) :: _ => Err FeUnsupported          (* (number ((e m x))) : a float *)
+      | SList (Atom e :: _) :: _ =>                             (* (number (e m x)) : a float *)
+        if kweq (lower e) "e" then Err FeUnsupported else Err FeShape
       | _ => Err FeShape
       end
     else if kweq k "point" then Err FeNotImpl
     else if kweq k "string" then
       match l with
-      | [Str s] => if str_tok_ok s then Ok (PVStr s) else Err FeShape
+      | [Str s] =>
+        if str_tok_ok s then match unescape_value s with Ok v => Ok (PVStr v) | Err e => Err e end else Err FeShape
       | _ => Err FeShape
       end
     else Err FeShape
